@@ -275,9 +275,10 @@ def run(run):
         "preprocess_text, _template_to_body) is glue: the ASTs the implementation really built are read back from its "
         "cookie table and compared with the generator's intent (histogram glue-ok/glue-differs)",
         "reference semantics harness/gen_wt.py:Ref written from the property text decides property failures",
-        "Gen/GenData.v (parser function names, nowiki map) regenerated from the live modules",
+        "Gen/GenData.v (parser function names, nowiki map) regenerated from the live modules; Gen/GenBody.v (the regex passes of "
+        "_template_to_body) regenerated by translate/body.py (Python ast, refuses any other statement: fail-closed)",
     ]
-    errs = regen.regen(["GenData"])
+    errs = regen.regen(["GenData", "GenBody"])
     for k, v in errs.items():
         run.correspondence_break("translator %s failed" % k, None, error=v)
     run.prove()
